@@ -35,7 +35,7 @@ DE = ["ein", "zwei", "drei", "vier", "fünf", "sechs", "sieben", "acht", "neun",
       "vierzehn", "fünfzehn", "sechzehn", "siebzehn", "achtzehn", "neunzehn", "zwanzig", "einundzwanzig",
       "zweiundzwanzig", "dreiundzwanzig", "vierundzwanzig", "fünfundzwanzig", "sechsundzwanzig", "siebenundzwanzig",
       "achtundzwanzig", "neunundzwanzig", "dreißig", "einunddreißig"]
-DE_ALT = {1: ["eine"], 30: ["dreissig"], 31: ["einunddreissig"]}
+DE_ALT = {1: ["eine"], 16: ["sechszehn"], 30: ["dreissig"], 31: ["einunddreissig", "einundreißig"]}
 EN_ALT = {1: ["a", "an"]}
 HALF = [("half an hour", 30, "minutes"), ("half hour", 30, "minutes"), ("halbe stunde", 30, "minutes"), ("1/2 hour", 30, "minutes"),
         ("half a day", 12, "hours"), ("half day", 12, "hours"), ("halbe tag", 12, "hours"), ("1/2 day", 12, "hours"),
